@@ -498,7 +498,7 @@ META = {
     "rule": "stacks: constructor headers (none or one of 17 dictionaries; thorough 30) + 0..2 nested blocks (thorough ..3), every combination with "
     "repetition, x {call, notification, batch}; dictionaries cover case variants of one name, non-string and falsy values, User-Agent and the protected "
     "names in several spellings; histories: every event sequence of length <=5 (thorough <=6) over {enter block d0..d4 (two of them equal under == but with different str() values), leave normally, leave by "
-    "exception, call, notify, batch} with nesting <=3, with and without constructor headers; extended: every ordered pair of 16 further dictionaries (OrderedDict and dict subclass, values "
+    "exception, call, notify, batch, the application adds a name to the dictionary it pushed last} with nesting <=3, with and without constructor headers; extended: every ordered pair of 16 further dictionaries (OrderedDict and dict subclass, values "
     "of str/int subclasses, Decimal, objects with __str__, huge floats, tuples, a 5000-character value, 40 names in one dictionary, a 200-character name) as "
     "constructor headers + block; two requests separated only by block exits and entries (stack, request, partial unwind, other stack, request) over the 5 history dictionaries up to depth 3; a proxy built in one thread and used from another; URLs with credentials x pushed Authorization headers (constructor / block / both); 3 and 50 consecutive blocks whose dictionaries "
     "are temporaries; blocks left through KeyboardInterrupt / SystemExit / GeneratorExit / BaseException; 5/12/40 nested blocks with restoration checked at every level; 60/400 (thorough 5000) consecutive blocks left normally, by "
